@@ -1029,7 +1029,11 @@ def factorize_(
     grp_shape = tuple(len(grp) for grp in found_groups)
     ngroups = math.prod(grp_shape)
     if len(by) > 1:
-        group_idx = _ravel_factorized(*factorized, grp_shape=grp_shape)
+        if ngroups == 0:
+            # some grouper has no group at all: every element is dropped
+            group_idx = np.full(np.broadcast_shapes(*(f.shape for f in factorized)), -1, dtype=np.intp)
+        else:
+            group_idx = _ravel_factorized(*factorized, grp_shape=grp_shape)
     else:
         (group_idx,) = factorized
 
